@@ -1,1 +1,1001 @@
 """Rules for C03, C04, C05, C09, C10, C11, C15, C18 (paths, bookkeeping, layout)."""
+
+from __future__ import annotations
+
+import ast
+
+from . import facts as F
+from .engine import Analysis, CLS, PUBLIC_API
+from .loader import norm
+from .report import Rule
+from .rules_common import (MUT, primary, base_class, key_matches, showlock, site_text, site_func, site_loc,
+                           mutation_events, resource_hits, func_nodes)
+from .terms import (AnalysisError, show, showv, tag, C, P, V, NONE, EMPTY, classify, is_rooted, is_summary,
+                    subterms, PathClass)
+
+Q = lambda n: f"{CLS}.{n}"  # noqa: E731
+REJECT = ("HashStoreRefsAlreadyExists", "PidRefsAlreadyExistsError")
+ALL_MODES = ("th", "mp")
+
+
+def all_events(A, entries=PUBLIC_API, modes=("th",)):
+    for m in modes:
+        for e in entries:
+            it = A.api(e, m)
+            for ev in it.events:
+                yield it, ev
+
+
+def probe_atoms(facts, kind, cls_name):
+    """atoms ("probe", kind, paths, muts) in the fact set whose path is of class cls_name"""
+    out = []
+    for f, pol in facts:
+        for a in F.atoms_of(f):
+            if a[0] == "probe" and a[1] == kind and any(classify(t).cls == cls_name for t in a[2]):
+                out.append(a)
+    return out
+
+
+def ev_muts_since_tagging(ev, atom):
+    """mutations recorded in the probe's epoch that belong to the tagging step itself (a probe
+    evaluated after the tagging step started writing is not the four-way split)"""
+    return {u for u in atom[3] if Q("_store_hashstore_refs_files") in (u[0],) or u[0] in (Q("_write_refs_file"), Q("_update_refs_file"))}
+
+
+def has_cmp_fact(facts, pred):
+    for f, pol in facts:
+        for a in F.atoms_of(f):
+            if a[0] == "cmp" and pred(a):
+                v = F.implied(facts, a)
+                if v is not None:
+                    return a, v
+    return None, None
+
+
+def emptiness_guard(ev, k):
+    """the event is control-dependent on `getsize(CIDREFS(k)) == 0` being true"""
+    def pred(a):
+        sides = [a[2], a[3]]
+        zero = any(s == V(C(0)) for s in sides)
+        pr = any(any(tag(t) == "probe" and t[1] == "getsize" and any(classify(p).cls == "CIDREFS" and classify(p).key == k for p in t[2])
+                     for t in s) for s in sides)
+        return zero and pr and a[1] == "=="
+    a, v = has_cmp_fact(ev.facts, pred)
+    return a is not None and v is True, a
+
+
+# =======================================================================================
+def check_C03(A: Analysis, tier):
+    rules = []
+    ra = Rule("C03", "C03.a", "while tagging, every state-changing primitive is reached only on paths where the pid "
+              "reference file was tested absent (reject before write)", floor=6)
+    for m in ALL_MODES:
+        for e in ("tag_object", "store_object"):
+            it = A.api(e, m)
+            for ev in it.events:
+                if ev.kind not in MUT or Q("_store_hashstore_refs_files") not in ev.ctx or Q("_untag_object") in ev.ctx:
+                    continue
+                ra.ob()
+                ra.inst(f"{ev.func.qual}:{ev.line} {ev.kind} {ev.prim}")
+                tagging = (Q("_store_hashstore_refs_files"), Q("_write_refs_file"), Q("_update_refs_file"), Q("_mktmpfile"))
+                atoms = [a for a in probe_atoms(ev.facts, "isfile", "PIDREFS")
+                         if not any(u[0] in tagging and u in ev_muts_since_tagging(ev, a) for u in a[3])]
+                ok = any(F.implied(ev.facts, a) is False for a in atoms)
+                if not ok:
+                    ra.fail(site_func(ev), site_text(ev),
+                            "state-changing primitive reachable while the pid reference file may exist: a re-tag of a "
+                            "bound pid would write before (or instead of) being rejected", site_loc(A, ev))
+    rules.append(ra)
+
+    rb = Rule("C03", "C03.b", "the two rejection errors never reach the roll-back (_untag_object) and leave "
+              "_store_hashstore_refs_files as the same class", floor=2)
+    rc = Rule("C03", "C03.c", "tag_object / store_object re-raise each rejection class unchanged", floor=2)
+    for m in ALL_MODES:
+        it = A.api("tag_object", m)
+        raised_inside = set()
+        for (fn, h, label, ctx, o) in it.handler_runs:
+            if label in REJECT:
+                raised_inside.add(label)
+                target = rb if fn.qual == Q("_store_hashstore_refs_files") else rc
+                if fn.qual not in (Q("_store_hashstore_refs_files"), Q("tag_object"), Q("store_object")):
+                    continue
+                target.ob()
+                target.inst(f"{fn.qual}:{h.lineno} handler for {label}")
+                outs = set(o.raises)
+                if outs != {label} or o.normal is not None or o.ret is not None:
+                    target.fail(fn, h.type if h.type is not None else "except:",
+                                f"handler entered with {label} leaves as {sorted(outs) or 'normal completion'}: the "
+                                "documented rejection class is not preserved", A.p.loc(fn, h))
+        for c in it.calls:
+            if c["callee"] == Q("_untag_object"):
+                rb.ob()
+                if any(l in REJECT for l in c["state"].handling):
+                    rb.fail(c["func"], c["node"], "roll-back (_untag_object) is reachable while handling a rejection error: "
+                            "a rejected re-tag would delete the existing binding", A.p.loc(c["func"], c["node"]))
+        labs = {l for k, l, s, _ in it.exits if k == "raise"}
+        for l in REJECT:
+            rc.ob()
+            if l not in labs:
+                rc.fail(Q("tag_object"), l, f"{l} can no longer leave tag_object: the documented already-exists error is lost")
+    rules += [rb, rc]
+
+    rd = Rule("C03", "C03.d", "a pid reference file is renamed away / removed only from delete_object and the "
+              "tagging roll-back", floor=2)
+    for it, ev in all_events(A, PUBLIC_API, ALL_MODES):
+        if ev.kind in ("RENAME", "REMOVE"):
+            for i, c in resource_hits(ev, {"PIDREFS"}):
+                if i != 0:
+                    continue
+                rd.ob()
+                rd.inst(f"{site_func(ev)}: `{site_text(ev)[:60]}`")
+                if site_func(ev) not in (Q("delete_object"), Q("_untag_object")):
+                    rd.fail(site_func(ev), site_text(ev), "a pid reference is unbound outside delete_object / roll-back",
+                            site_loc(A, ev))
+    rules.append(rd)
+    return rules
+
+
+# =======================================================================================
+OBJ_DELETERS = {
+    Q("delete_object"): "last reference removed: rename-for-deletion of the object under the emptiness guard",
+    Q("_delete_object_only"): "delete_if_invalid_object: only when no cid reference file exists",
+    Q("_move_and_get_checksums"): "fault path only: the handler that runs after shutil.move raised",
+}
+
+
+def check_C04(A: Analysis, tier):
+    rules = []
+    ra = Rule("C04", "C04.a", "only the tabled deleters rename away or remove a file of class OBJ", floor=3)
+    rb = Rule("C04", "C04.b", "each deleter is control-dependent on the cid reference list being empty/absent, "
+              "tested under the cid claim (delete_object: after the remove-update)", floor=2)
+    for it, ev in all_events(A, PUBLIC_API, ALL_MODES):
+        if ev.kind not in ("RENAME", "REMOVE"):
+            continue
+        for i, c in resource_hits(ev, {"OBJ"}):
+            if i != 0:
+                continue
+            sf = site_func(ev)
+            ra.ob()
+            ra.inst(f"{sf}: `{site_text(ev)[:60]}`")
+            if sf not in OBJ_DELETERS:
+                ra.fail(sf, site_text(ev), "an object file is removed by a function that is not one of the three "
+                        "reference-guarded deleters", site_loc(A, ev))
+                continue
+            if sf == Q("_move_and_get_checksums"):
+                if not ev.handling:
+                    ra.fail(sf, site_text(ev), "object removal in _move_and_get_checksums outside the failed-move handler",
+                            site_loc(A, ev))
+                continue
+            rb.ob()
+            rb.inst(f"{sf}: `{site_text(ev)[:60]}` [{it.entry.split('.')[-1]}/{it.mode}]")
+            lock_ok = any(l[0] == "object_locked_cids" and key_matches(l, c) for l in ev.held_must)
+            if sf == Q("delete_object"):
+                ok, atom = emptiness_guard(ev, c.key)
+                upd = atom is not None and any(tag(t) == "probe" and t[3] for s in (atom[2], atom[3]) for t in s)
+                if not ok:
+                    rb.fail(sf, site_text(ev), "the object is renamed for deletion on a path where the cid reference "
+                            "list was not tested empty: an object still referenced by other pids would be removed", site_loc(A, ev))
+                elif not upd or ("prim", "WRITE", 0, "CIDREFS") not in ev.done:
+                    rb.fail(sf, site_text(ev), "emptiness of the cid reference list is tested before this pid was removed from it",
+                            site_loc(A, ev))
+            else:
+                atoms = probe_atoms(ev.facts, "isfile", "CIDREFS")
+                atoms = [a for a in atoms if any(classify(t).key == c.key for t in a[2])]
+                if not any(F.implied(ev.facts, a) is False for a in atoms):
+                    rb.fail(sf, site_text(ev), "the object is removed on a path where the cid reference file was not "
+                            "tested absent: delete_if_invalid_object would delete a referenced object", site_loc(A, ev))
+            if not lock_ok:
+                rb.fail(sf, site_text(ev), "object removal and its reference guard are not under the cid claim", site_loc(A, ev))
+    rules += [ra, rb]
+
+    rc = Rule("C04", "C04.c", "on the duplicate-content branch (object already present) no primitive writes, "
+              "renames onto or removes the object", floor=1)
+    for m in ALL_MODES:
+        it = A.api("store_object", m)
+        for ev in it.events:
+            if ev.func.qual != Q("_move_and_get_checksums") and Q("_move_and_get_checksums") not in ev.ctx:
+                continue
+            atoms = probe_atoms(ev.facts, "isfile", "OBJ")
+            if not any(F.implied(ev.facts, a) is True for a in atoms):
+                continue
+            rc.ob()
+            rc.inst(f"{ev.func.qual}:{ev.line} {ev.kind} on the object-exists branch", nontrivial=ev.kind in MUT)
+            if ev.kind in MUT and any(c.cls == "OBJ" for cs in ev.classes for c in primary(cs)):
+                rc.fail(site_func(ev), site_text(ev), "the already-stored object is modified while de-duplicating",
+                        site_loc(A, ev))
+    rules.append(rc)
+
+    rd = Rule("C04", "C04.d", "store/retrieve/delete_metadata touch only metadata documents, their directory, "
+              "their temp and marker files (effect classes)", floor=3)
+    allowed = {"META", "METADIR", "TMP", "TMPDIR", "MARKER", "EXTERNAL", "PARENTDIR", "ENTITYDIR"}
+    for m in ALL_MODES:
+        for e in ("store_metadata", "retrieve_metadata", "delete_metadata"):
+            it = A.api(e, m)
+            rd.inst(f"{e} [{m}]: {len(it.events)} primitive events")
+            for ev in it.events:
+                if ev.kind not in MUT and ev.kind != "MKDIR":
+                    continue
+                rd.ob()
+                for i, cs in enumerate(ev.classes):
+                    if ev.prim.startswith("file.") and i > 0:
+                        continue
+                    for c in primary(cs):
+                        b = base_class(c)
+                        bad = c.cls not in allowed or (c.cls in ("TMP", "TMPDIR") and c.key != C("metadata")) \
+                            or (c.cls == "MARKER" and b.cls != "META")
+                        if bad and c.cls not in ("BOGUS", "FALLBACK", "RAWID", "RELATIVE"):
+                            rd.fail(site_func(ev), site_text(ev), f"metadata call has effect {ev.kind} on {c!r}: "
+                                    "metadata operations must not touch objects or references", site_loc(A, ev))
+    rules.append(rd)
+
+    rf = Rule("C04", "C04.f", "delete_object's main branch renames the cid list and the object for deletion under "
+              "the emptiness guard and hands both markers to _delete_marked_files", floor=2)
+    for m in ALL_MODES:
+        it = A.api("delete_object", m)
+        got = {"OBJ": False, "CIDREFS": False}
+        for ev in it.events:
+            if ev.kind == "RENAME" and not ev.handling and site_func(ev) == Q("delete_object"):
+                for i, c in resource_hits(ev, {"OBJ", "CIDREFS"}):
+                    if i == 0 and emptiness_guard(ev, c.key)[0]:
+                        got[c.cls] = True
+                        rf.inst(f"delete_object [{m}]: `{site_text(ev)[:60]}` under emptiness guard")
+        for k, v in got.items():
+            rf.ob()
+            if not v:
+                rf.fail(Q("delete_object"), f"rename-for-deletion of {k}", f"when the last pid is deleted the {k} file is no "
+                        "longer marked for deletion: an unreferenced object / empty list is left behind")
+    rules.append(rf)
+    return rules
+
+
+# =======================================================================================
+FAILS_ON_MISSING = {"READ", "WRITE", "CREATE", "REMOVE", "RENAME"}
+
+
+def check_C05(A: Analysis, tier):
+    rules = []
+    ra = Rule("C05", "C05.a", "no path is read, written, sized, renamed or removed after the same call renamed it "
+              "away (typestate per path term)", floor=8)
+    for it, ev in all_events(A, PUBLIC_API, ALL_MODES):
+        if ev.kind == "RENAME":
+            ra.inst(f"{site_func(ev)}: `{site_text(ev)[:60]}`")
+        if not ev.paths:
+            continue
+        uses = ev.kind in FAILS_ON_MISSING or ev.prim in ("os.path.getsize", "os.stat", "os.listdir")
+        if not uses:
+            continue
+        ra.ob()
+        for t in ev.paths[0]:
+            if t in ev.gone and not is_summary(t) and classify(t).cls in ("PIDREFS", "CIDREFS", "OBJ", "META", "TMP"):
+                ra.fail(site_func(ev), site_text(ev), f"{classify(t)!r} is used ({ev.kind} {ev.prim}) after it was renamed away or removed "
+                        f"earlier in the same call (entry {it.entry.split('.')[-1]}): the operation fails with FileNotFoundError "
+                        "and the clean-up cannot complete", site_loc(A, ev), {"entry": it.entry, "handling": list(ev.handling)})
+    rules.append(ra)
+
+    rb = Rule("C05", "C05.b", "every deletion marker produced is handed to a removal on every normal "
+              "continuation (may-pending set empty at normal exit)", floor=9)
+    re_ = Rule("C05", "C05.e", "every temp file produced is renamed into place or removed on every normal "
+               "continuation (may-temp set empty at normal exit)", floor=9)
+    for it in A.all_api_runs():
+        nm = 0
+        nt = 0
+        for ev in it.events:
+            if ev.kind == "RENAME" and any(c.cls == "MARKER" for c in ev.classes[1]):
+                nm += 1
+            if ev.kind == "CREATE" and ev.prim.endswith("NamedTemporaryFile"):
+                nt += 1
+        rb.inst(f"{it.entry} [{it.mode}]: {nm} marker-producing rename event(s)", nontrivial=nm > 0)
+        re_.inst(f"{it.entry} [{it.mode}]: {nt} temp-file creation event(s)", nontrivial=nt > 0)
+        for kind, label, st, _ in it.exits:
+            if kind != "return":
+                continue
+            rb.ob()
+            re_.ob()
+            for t in sorted(st.pending, key=repr):
+                rb.fail(it.entry, f"marker of {classify(t).key!r}", f"a `*_delete` marker for {classify(t).key!r} can survive a "
+                        f"successful {it.entry.split('.')[-1]}: it is renamed but not handed to _delete_marked_files on some normal path")
+            for t in sorted(st.tmps, key=repr):
+                re_.fail(it.entry, f"temp file in {show(t[1])}", f"a temp file created in {show(t[1])} can survive a successful "
+                         f"{it.entry.split('.')[-1]}: neither renamed into place nor removed on some normal path")
+    rules += [rb, re_]
+
+    rc = Rule("C05", "C05.c", "after every remove-update of a cid reference list the same call tests the list for "
+              "emptiness and renames the emptied list for deletion", floor=3)
+    rd_sites = {}
+    for m in ALL_MODES:
+        for e in ("delete_object", "tag_object"):
+            it = A.api(e, m)
+            for c in it.calls:
+                if c["callee"] != Q("_update_refs_file"):
+                    continue
+                am = c.get("argmap", {})
+                if am.get("update_type") != V(C("remove")):
+                    continue
+                key = (c["func"].qual, norm(c["node"]))
+                q = am.get("refs_file_path", EMPTY)
+                rec = rd_sites.setdefault(key, {"call": c, "ok": False})
+                rc.ob()
+                for ev in it.events:
+                    if ev.kind == "RENAME" and ev.ctx[:len(c["ctx"])] == c["ctx"] and ev.handling == c["state"].handling \
+                            and ev.paths[0] & q:
+                        for t in ev.paths[0] & q:
+                            cc = classify(t)
+                            if cc.cls == "CIDREFS" and emptiness_guard(ev, cc.key)[0]:
+                                rec["ok"] = True
+    for (fn, tx), rec in sorted(rd_sites.items()):
+        rc.inst(f"{fn}: `{tx[:70]}`")
+        if not rec["ok"]:
+            c = rec["call"]
+            rc.fail(fn, tx, "the pid is removed from the cid reference list but the list is never tested for emptiness "
+                    "here: an empty list (naming no pid) is left behind", A.p.loc(c["func"], c["node"]))
+    rules.append(rc)
+
+    rd = Rule("C05", "C05.d", "delete_object and the tagging roll-back perform the same reference mutations for each "
+              "inconsistency class they both handle", floor=3)
+
+    def actions(events, label, want_ctx):
+        acts = set()
+        for ev in events:
+            if not ev.handling or ev.handling[-1] != label or not want_ctx(ev):
+                continue
+            if ev.kind == "RENAME":
+                for i, c in resource_hits(ev, {"PIDREFS", "CIDREFS"}):
+                    if i == 0:
+                        acts.add(f"rename-away {c.cls}" + (" when empty" if c.cls == "CIDREFS" else ""))
+            if ev.kind == "WRITE" and ev.prim == "file.truncate":
+                for i, c in resource_hits(ev, {"CIDREFS"}):
+                    acts.add("remove pid from CIDREFS")
+        return acts
+
+    for m in ALL_MODES:
+        d = A.api("delete_object", m)
+        t = A.api("tag_object", m)
+        dl = {lab for (fn, h, lab, ctx, o) in d.handler_runs if fn.qual == Q("delete_object")}
+        tl = {lab for (fn, h, lab, ctx, o) in t.handler_runs if fn.qual == Q("_untag_object")}
+        for lab in sorted(dl & tl):
+            if lab not in A.p.exc_classes:
+                continue
+            rd.ob()
+            da = actions(d.events, lab, lambda ev: ev.ctx[0] == Q("delete_object") and len(ev.handling) == 1)
+            ta = actions(t.events, lab, lambda ev: Q("_untag_object") in ev.ctx)
+            rd.inst(f"{lab} [{m}]: delete_object {sorted(da)} / _untag_object {sorted(ta)}")
+            if da != ta:
+                h = [h for (fn, h, l2, ctx, o) in d.handler_runs if fn.qual == Q("delete_object") and l2 == lab][0]
+                rd.fail(Q("delete_object"), f"except {lab}", f"clean-up for {lab} differs between the two siblings: delete_object does "
+                        f"{sorted(da)}, the roll-back does {sorted(ta)}", A.p.loc(A.p.func(Q("delete_object")), h))
+    rules.append(rd)
+    return rules
+
+
+# =======================================================================================
+ENTITY_OF = {"OBJ": "objects", "META": "metadata", "PIDREFS": "refs", "CIDREFS": "refs"}
+
+
+def check_C09(A: Analysis, tier):
+    rules = []
+    ra = Rule("C09", "C09.a", "no file of class OBJ, META or PIDREFS is ever opened for writing or created in place; "
+              "those classes appear only as the destination of a rename from a temp file (or as rename source / read)", floor=4)
+    rb = Rule("C09", "C09.b", "the temp file of a publishing rename lives in the tmp directory of the same entity "
+              "tree as its destination", floor=4)
+    rc = Rule("C09", "C09.c", "the handle that wrote the temp file is closed on every path before the publishing rename", floor=4)
+    rd = Rule("C09", "C09.d", "a permanent file leaves its address only by one rename to a `_delete` marker or one remove", floor=4)
+    for it, ev in all_events(A, PUBLIC_API, ALL_MODES):
+        if ev.kind in ("CREATE", "WRITE"):
+            for i, c in resource_hits(ev, {"OBJ", "META", "PIDREFS"}):
+                if i != 0:
+                    continue
+                ra.ob()
+                ra.fail(site_func(ev), site_text(ev), f"{ev.prim} ({ev.extra.get('mode', ev.kind)}) acts in place on a permanent "
+                        f"{c.cls} file: a reader or a crash can observe it half-written", site_loc(A, ev))
+        if ev.kind == "RENAME":
+            dst = [c for c in primary(ev.classes[1]) if c.cls in ("OBJ", "META", "PIDREFS", "CIDREFS")]
+            src = primary(ev.classes[0])
+            for c in dst:
+                ra.ob()
+                tx = f"{site_func(ev)}: `{site_text(ev)[:60]}` -> {c.cls}"
+                ra.inst(tx)
+                rb.inst(tx)
+                rc.inst(tx)
+                rb.ob()
+                rc.ob()
+                if not src or any(s.cls != "TMP" for s in src):
+                    ra.fail(site_func(ev), site_text(ev), f"{c.cls} is published by renaming from {src!r}, not from a temp file", site_loc(A, ev))
+                    continue
+                if any(s.key != C(ENTITY_OF[c.cls]) for s in src):
+                    rb.fail(site_func(ev), site_text(ev), f"temp file staged in {[show(s.key) for s in src]} is renamed into the "
+                            f"{ENTITY_OF[c.cls]} tree: not a same-directory-tree rename, publication is not one step", site_loc(A, ev))
+                for t in ev.paths[0]:
+                    if ("closed", t) not in ev.done:
+                        rc.fail(site_func(ev), site_text(ev), "the temp file may still be open for writing (not closed on every "
+                                "path) when it is renamed to its permanent address", site_loc(A, ev))
+            for i, c in resource_hits(ev, {"OBJ", "META", "PIDREFS"}):
+                if i == 0:
+                    rd.ob()
+                    rd.inst(f"{site_func(ev)}: `{site_text(ev)[:60]}` {c.cls} -> marker")
+                    if not all(d.cls == "MARKER" for d in primary(ev.classes[1])):
+                        rd.fail(site_func(ev), site_text(ev), f"{c.cls} is renamed to something that is not a `_delete` marker", site_loc(A, ev))
+    rules += [ra, rb, rc, rd]
+    return rules
+
+
+# =======================================================================================
+def check_C10(A: Analysis, tier):
+    rules = []
+    ra = Rule("C10", "C10.a", "durable steps happen in the order the recovery code is written for: object before "
+              "references, pid reference before cid list; on delete pid reference, list update, list, object, metadata", floor=6)
+
+    def need(ev, what, why):
+        ra.ob()
+        ra.inst(f"{site_func(ev)}: `{site_text(ev)[:50]}` after {what}")
+        if what not in ev.done:
+            ra.fail(site_func(ev), site_text(ev), why, site_loc(A, ev))
+
+    for m in ALL_MODES:
+        it = A.api("store_object", m)
+        for ev in it.events:
+            if ev.kind in MUT and Q("_store_hashstore_refs_files") in ev.ctx and Q("_untag_object") not in ev.ctx:
+                if any(c.cls in ("PIDREFS", "CIDREFS") for cs in ev.classes for c in primary(cs)):
+                    need(ev, ("call", Q("_store_and_validate_data")),
+                         "a reference is written before the object is stored and validated: a crash leaves a reference to nothing")
+        for e in ("tag_object",):
+            it = A.api(e, m)
+            for ev in it.events:
+                if Q("_untag_object") in ev.ctx or ev.kind not in MUT:
+                    continue
+                hits = [(i, c) for i, c in resource_hits(ev, {"CIDREFS"})]
+                if ev.kind == "RENAME" and any(i == 1 for i, c in hits):
+                    need(ev, ("prim", "RENAME", 1, "PIDREFS"),
+                         "the cid reference list is published before the pid reference: a crash in between leaves a list naming an unbound pid")
+                if ev.kind == "WRITE" and ev.prim == "file.write" and hits:
+                    need(ev, ("prim", "RENAME", 1, "PIDREFS"),
+                         "the pid is added to the cid list before its pid reference exists")
+        it = A.api("delete_object", m)
+        for ev in it.events:
+            if ev.handling or ev.ctx[0] != Q("delete_object"):
+                continue
+            if ev.kind == "WRITE" and ev.prim == "file.truncate" and resource_hits(ev, {"CIDREFS"}):
+                need(ev, ("prim", "RENAME", 0, "PIDREFS"), "the cid list is updated before the pid reference is renamed away")
+            if ev.kind == "RENAME" and site_func(ev) == Q("delete_object"):
+                for i, c in resource_hits(ev, {"CIDREFS", "OBJ"}):
+                    if i == 0 and c.cls == "CIDREFS":
+                        need(ev, ("prim", "WRITE", 0, "CIDREFS"), "the cid list is renamed away before this pid was removed from it")
+                    if i == 0 and c.cls == "OBJ":
+                        need(ev, ("prim", "RENAME", 0, "CIDREFS"), "the object is renamed away before its (empty) cid list")
+        for c in it.calls:
+            if c["callee"] == Q("delete_metadata") and c["ctx"] == (Q("delete_object"),) and not c["state"].handling:
+                ra.ob()
+                ra.inst("delete_object: delete_metadata(pid) after the reference files")
+                if ("prim", "RENAME", 0, "PIDREFS") not in c["state"].done:
+                    ra.fail(c["func"], c["node"], "metadata is removed before the pid reference is renamed away", A.p.loc(c["func"], c["node"]))
+    rules.append(ra)
+
+    rb = Rule("C10", "C10.b", "every inconsistency class _find_object can raise has a clean-up branch in delete_object "
+              "and in the roll-back", floor=3)
+    fo = A.p.func(Q("_find_object"))
+    raised = set()
+    for n in func_nodes(fo, ast.Raise):
+        if isinstance(n.exc, ast.Call) and isinstance(n.exc.func, ast.Name) and n.exc.func.id in A.p.exc_classes:
+            raised.add(n.exc.func.id)
+
+    def handled(fq, node=None):
+        out = set()
+        f = A.p.func(fq)
+        for t in func_nodes(f, ast.Try):
+            if any(isinstance(c, ast.Call) and norm(c.func).endswith("_find_object") for s in t.body for c in ast.walk(s)):
+                for h in t.handlers:
+                    if h.type is not None:
+                        out |= {norm(e) for e in (h.type.elts if isinstance(h.type, ast.Tuple) else [h.type])}
+        return out
+
+    hd, hu = handled(Q("delete_object")), handled(Q("_untag_object"))
+    for cls in sorted(raised):
+        rb.inst(f"_find_object raises {cls}")
+        rb.ob(2)
+        if cls != "PidRefsDoesNotExist" and cls not in hd and "Exception" not in hd:
+            rb.fail(Q("delete_object"), f"except {cls}", f"_find_object classifies a partial state as {cls} but delete_object has no "
+                    "clean-up branch for it: a pid interrupted in that state can never be deleted and stored again")
+        if cls not in hu and "Exception" not in hu:
+            rb.fail(Q("_untag_object"), f"except {cls}", f"_find_object raises {cls} but the tagging roll-back does not handle it")
+    rules.append(rb)
+
+    rc = Rule("C10", "C10.c", "every clean-up branch of delete_object unbinds the pid (renames its reference away), "
+              "removes its metadata and the markers, and never touches an object", floor=3)
+    for m in ALL_MODES:
+        it = A.api("delete_object", m)
+        for (fn, h, lab, ctx, o) in it.handler_runs:
+            if fn.qual != Q("delete_object") or lab not in A.p.exc_classes:
+                continue
+            rc.ob()
+            rc.inst(f"delete_object [{m}] except {lab}")
+            if o.ret is None:
+                rc.fail(fn, f"except {lab}", f"clean-up branch for {lab} never completes normally", A.p.loc(fn, h))
+                continue
+            for want, txt in ((("prim", "RENAME", 0, "PIDREFS"), "rename the pid reference away"),
+                              (("call", Q("delete_metadata")), "call delete_metadata(pid)"),
+                              (("call", Q("_delete_marked_files")), "call _delete_marked_files")):
+                if want not in o.ret.done:
+                    rc.fail(fn, f"except {lab}", f"clean-up branch for {lab} can return without having to {txt}: the pid stays wedged",
+                            A.p.loc(fn, h))
+        for ev in it.events:
+            if ev.handling and ev.kind in ("RENAME", "REMOVE") and ev.ctx[0] == Q("delete_object"):
+                for i, c in resource_hits(ev, {"OBJ"}):
+                    if i == 0:
+                        rc.fail(site_func(ev), site_text(ev), "a clean-up branch removes an object", site_loc(A, ev))
+    rules.append(rc)
+
+    rd = Rule("C10", "C10.d", "no clean-up branch uses a path after renaming it away (see C05.a)", floor=1)
+    c5 = [r for r in check_C05_cached(A) if r.rid == "C05.a"][0]
+    rd.instances = list(c5.instances)
+    rd.nontrivial = set(c5.nontrivial)
+    rd.obligations = c5.obligations
+    for f in c5.findings:
+        if f.detail.get("handling") and f.detail.get("entry") == Q("delete_object"):
+            rd.fail(f.func, f.construct, f.message, f.loc, f.detail)
+    rules.append(rd)
+
+    re_ = Rule("C10", "C10.e", "adding a pid to an existing cid list is guarded by a negative membership test "
+               "(re-tagging after a crash tolerates a pid already listed)", floor=1)
+    for m in ALL_MODES:
+        it = A.api("tag_object", m)
+        for ev in it.events:
+            if ev.kind == "WRITE" and ev.prim == "open" and ev.extra.get("mode", "").startswith("a") and resource_hits(ev, {"CIDREFS"}):
+                re_.ob()
+                re_.inst(f"{ev.func.qual}:{ev.line} append-open of the cid list")
+                ok = False
+                for f, pol in ev.facts:
+                    if f[0] == "truthy" and f[1] == V(C(True), C(False)) and pol is False:
+                        ok = True
+                if not ok or ("call", Q("_is_string_in_refs_file")) not in ev.done:
+                    re_.fail(site_func(ev), site_text(ev), "the pid is appended to the cid list without a preceding negative membership "
+                             "test: re-tagging a half-tagged pid lists it twice", site_loc(A, ev))
+    rules.append(re_)
+    return rules
+
+
+_c05_cache = {}
+
+
+def check_C05_cached(A):
+    if id(A) not in _c05_cache:
+        _c05_cache[id(A)] = check_C05(A, "quick")
+    return _c05_cache[id(A)]
+
+
+# =======================================================================================
+def _meta_name_ok(name, pid_terms, fmt_terms):
+    """name == H(cat(pid, F))"""
+    if tag(name) != "H" or name[2] is not None:
+        return False
+    x = name[1]
+    if tag(x) != "cat" or len(x[1]) != 2:
+        return False
+    return x[1][0] in pid_terms and x[1][1] in fmt_terms
+
+
+def check_C11(A: Analysis, tier):
+    rules = []
+    ra = Rule("C11", "C11.a", "every metadata-document site uses the address metadata/shard(H(pid))/H(pid+F) with "
+              "F = format_id or the default namespace; delete-all lists exactly metadata/shard(H(pid))", floor=4)
+    pidt = {P("pid")}
+    fmts = {P("format_id"), ("selfattr", "sysmeta_ns")}
+    for m in ALL_MODES:
+        for e in ("store_metadata", "retrieve_metadata", "delete_metadata"):
+            it = A.api(e, m)
+            for ev in it.events:
+                for i, cs in enumerate(ev.classes):
+                    if ev.prim.startswith("file.") and i > 0:
+                        continue
+                    for c in cs:
+                        b = base_class(c)
+                        if b.cls in ("META_UNHASHED", "PIDREFS_UNHASHED") or (b.cls == "UNKNOWN" and ev.kind in MUT and i == (1 if ev.kind == "RENAME" else 0) and c.cls != "MARKER"):
+                            ra.ob()
+                            ra.fail(site_func(ev), site_text(ev), f"metadata path is not derived as metadata/shard(H(pid))/...: {c!r}", site_loc(A, ev))
+                        if b.cls in ("META", "METADIR"):
+                            ra.ob()
+                            ra.inst(f"{site_func(ev)}: `{site_text(ev)[:50]}` {b.cls}")
+                            ok = b.key in pidt and (b.cls == "METADIR" and b.extra is None or b.cls == "META" and (
+                                _meta_name_ok(b.extra, pidt, fmts) or (tag(b.extra) == "listed" and classify(b.extra[1]).cls == "METADIR"
+                                                                       and classify(b.extra[1]).key in pidt)))
+                            if not ok:
+                                ra.fail(site_func(ev), site_text(ev), f"metadata address {b!r} is not metadata/shard(H(pid))/H(pid+format): "
+                                        "documents of different (pid, format) pairs can collide or be missed", site_loc(A, ev))
+    # the sysmeta path reported by _find_object
+    fo = A.run(Q("_find_object"), "th")
+    for k, l, st, rv in fo.exits:
+        if k == "return":
+            for t in rv:
+                if tag(t) == "dictlit":
+                    for kk, vv in t[1]:
+                        if kk == C("sysmeta_path"):
+                            ra.ob()
+                            ra.inst("_find_object: sysmeta_path entry")
+                            for x in vv:
+                                c = classify(x)
+                                if tag(x) == "const":
+                                    continue
+                                if c.cls != "META" or c.key not in pidt or not _meta_name_ok(c.extra, pidt, {("selfattr", "sysmeta_ns")}):
+                                    ra.fail(Q("_find_object"), "sysmeta_path", f"sysmeta path {c!r} is not the default-namespace document address")
+    rules.append(ra)
+
+    rb = Rule("C11", "C11.b", "an omitted format means exactly the configured default namespace and a given format "
+              "means exactly that format, at every site", floor=5)
+    for e in ("store_metadata", "retrieve_metadata", "delete_metadata"):
+        for label, ov, want in (("format omitted", V(NONE), {("selfattr", "sysmeta_ns")}), ("format given", V(C("FMT")), {C("FMT")})):
+            it = A.run(Q(e), "th", overrides={"format_id": ov}, tagk=label)
+            names = set()
+            for ev in it.events:
+                for cs in ev.classes[:1] if ev.kind != "RENAME" else ev.classes[:2]:
+                    for c in cs:
+                        b = base_class(c)
+                        if b.cls == "META" and tag(b.extra) != "listed":
+                            names.add(b.extra)
+            if e == "delete_metadata" and label == "format omitted":
+                rb.ob()
+                rb.inst(f"{e} ({label}): delete-all form")
+                if names:
+                    rb.fail(Q(e), "format_id is None", f"delete_metadata(pid) addresses single documents {sorted(show(n) for n in names)} "
+                            "instead of listing the pid's directory")
+                continue
+            rb.ob()
+            rb.inst(f"{e} ({label}): {sorted(show(n) for n in names)}")
+            bad = [n for n in names if not _meta_name_ok(n, pidt, want)]
+            if bad or not names:
+                rb.fail(Q(e), f"{label}", f"{e} with {label} addresses {sorted(show(n) for n in names) or 'no document'}; expected "
+                        f"H(pid+{show(next(iter(want)))}) only")
+    rules.append(rb)
+
+    rd = Rule("C11", "C11.d", "every normal path through delete_object calls delete_metadata(pid) with the format "
+              "omitted (all documents)", floor=4)
+    for m in ALL_MODES:
+        it = A.api("delete_object", m)
+        for c in it.calls:
+            if c["callee"] == Q("delete_metadata"):
+                rd.ob()
+                rd.inst(f"delete_object:{c['node'].lineno} {norm(c['node'])}")
+                am = c.get("argmap", {})
+                if am.get("format_id") != V(NONE) or am.get("pid") != V(P("pid")):
+                    rd.fail(c["func"], c["node"], "delete_object removes only one metadata document (or another pid's) instead of all "
+                            "documents of the deleted pid", A.p.loc(c["func"], c["node"]))
+        for kind, label, st, _ in it.exits:
+            if kind == "return":
+                rd.ob()
+                if ("call", Q("delete_metadata")) not in st.done:
+                    rd.fail(Q("delete_object"), "return", "delete_object can return normally without having removed the pid's metadata")
+    rules.append(rd)
+
+    re_ = Rule("C11", "C11.e", "deleting an absent document is a silent no-op and retrieving it raises ValueError: the "
+               "look-up's FileNotFoundError never escapes either call", floor=2)
+    for e in ("delete_metadata", "retrieve_metadata"):
+        it = A.api(e, "th")
+        labs = {l for k, l, s, _ in it.exits if k == "raise"}
+        re_.ob()
+        re_.inst(f"{e}: exits {sorted(str(l) for l in labs)}")
+        if "FileNotFoundError" in labs and e == "delete_metadata":
+            re_.fail(Q(e), "FileNotFoundError", f"the look-up helper's FileNotFoundError can escape {e}: an absent document is "
+                     "no longer a silent no-op / a ValueError")
+        if e == "retrieve_metadata" and "ValueError" not in labs:
+            re_.fail(Q(e), "ValueError", "retrieve_metadata no longer raises ValueError for an absent document")
+        if e == "retrieve_metadata":
+            for k, l, s, rv in it.exits:
+                if k == "return" and not any(tag(t) == "handle" for t in rv):
+                    re_.fail(Q(e), "return", "retrieve_metadata can return something that is not an open stream")
+    rules.append(re_)
+    return rules
+
+
+# =======================================================================================
+def _poly(node, syms):
+    """A7: integer expression -> canonical polynomial {monomial(tuple of sorted symbols): coeff}"""
+    if isinstance(node, ast.Constant) and isinstance(node.value, int):
+        return {(): node.value} if node.value else {}
+    if isinstance(node, ast.Name):
+        return {(node.id,): 1}
+    if isinstance(node, ast.Attribute) and isinstance(node.value, ast.Name) and node.value.id == "self":
+        return {(f"self.{node.attr}",): 1}
+    if isinstance(node, ast.BinOp):
+        a, b = _poly(node.left, syms), _poly(node.right, syms)
+        if a is None or b is None:
+            return None
+        if isinstance(node.op, (ast.Add, ast.Sub)):
+            out = dict(a)
+            sg = 1 if isinstance(node.op, ast.Add) else -1
+            for k, v in b.items():
+                out[k] = out.get(k, 0) + sg * v
+            return {k: v for k, v in out.items() if v}
+        if isinstance(node.op, ast.Mult):
+            out = {}
+            for k1, v1 in a.items():
+                for k2, v2 in b.items():
+                    k = tuple(sorted(k1 + k2))
+                    out[k] = out.get(k, 0) + v1 * v2
+            return {k: v for k, v in out.items() if v}
+    if isinstance(node, ast.UnaryOp) and isinstance(node.op, ast.USub):
+        a = _poly(node.operand, syms)
+        return None if a is None else {k: -v for k, v in a.items()}
+    return None
+
+
+def check_C15(A: Analysis, tier):
+    rules = []
+    ra = Rule("C15", "C15.a", "every primitive on a permanent file uses the README address of its class: objects/"
+              "shard(cid), refs/pids/shard(H(pid)), refs/cids/shard(cid), metadata/shard(H(pid))/H(pid+format), "
+              "hashstore.yaml; H is the store algorithm; fall-back candidates only in the two look-up helpers", floor=30)
+    lookups = (Q("_get_hashstore_data_object_path"), Q("_get_hashstore_metadata_path"), Q("_delete"), Q("_open"), Q("_exists"))
+    for it, ev in all_events(A, PUBLIC_API, ALL_MODES):
+        if ev.kind not in MUT + ("READ", "PROBE", "MKDIR"):
+            continue
+        for i, cs in enumerate(ev.classes):
+            if ev.prim.startswith("file.") and i > 0:
+                continue
+            for c in primary(cs):
+                b = base_class(c)
+                while b.cls == "PARENTDIR" and isinstance(b.key, PathClass):
+                    b = b.key
+                if b.cls in ("OBJ", "CIDREFS", "PIDREFS", "META", "METADIR", "CONFIG"):
+                    ra.ob()
+                    ra.inst(f"{b.cls} at {ev.func.qual}:{ev.line}")
+                    if b.cls in ("PIDREFS", "METADIR") and b.extra is not None:
+                        ra.fail(site_func(ev), site_text(ev), f"{b.cls} address hashes the pid with {show(b.extra)}, not the store algorithm", site_loc(A, ev))
+                elif b.cls in ("PIDREFS_UNHASHED", "META_UNHASHED"):
+                    ra.ob()
+                    ra.fail(site_func(ev), site_text(ev), f"{b.cls[:-9]} address is sharded from {show(b.key)} instead of H(pid)", site_loc(A, ev))
+                elif b.cls in ("FALLBACK", "RAWID", "RELATIVE", "BOGUS"):
+                    # only secondary candidates are left: nothing of the README layout
+                    ra.ob()
+                    if not any(q in ev.ctx for q in lookups):
+                        ra.fail(site_func(ev), site_text(ev), f"path {c!r} is not a README address (an identifier or relative name used as a path outside the look-up helpers)",
+                                site_loc(A, ev))
+                    elif ev.kind in ("CREATE", "WRITE") or (ev.kind == "RENAME" and i == 1):
+                        ra.fail(site_func(ev), site_text(ev), f"fall-back candidate {c!r} used as a destination", site_loc(A, ev))
+                elif b.cls == "UNKNOWN" and (ev.kind in MUT):
+                    ra.ob()
+                    ra.fail(site_func(ev), site_text(ev), f"{ev.kind} on a path the analysis cannot relate to the README layout: {showv(ev.paths[i])[:120]}",
+                            site_loc(A, ev))
+    ch = A.p.func(Q("_computehash"))
+    news = [c for c in ast.walk(ch.node) if isinstance(c, ast.Call) and norm(c.func) == "hashlib.new"]
+    ra.ob()
+    if not any(norm(c.args[0]) == "self.algorithm" for c in news if c.args):
+        ra.fail(ch, "hashlib.new", "_computehash does not default to the store algorithm (self.algorithm)", A.p.loc(ch, ch.node))
+    rules.append(ra)
+
+    rb = Rule("C15", "C15.b", "_shard cuts token i as [i*width, (i+1)*width) for i in range(depth) and the remainder "
+              "from depth*width to the end; empty strings dropped", floor=2)
+    sh = A.p.func(Q("_shard"))
+    slices = [n for n in ast.walk(sh.node) if isinstance(n, ast.Subscript) and isinstance(n.slice, ast.Slice)]
+    comps = [n for n in ast.walk(sh.node) if isinstance(n, ast.ListComp) and any(isinstance(x, ast.Subscript) and isinstance(x.slice, ast.Slice) for x in ast.walk(n.elt))]
+    if len(slices) != 2 or len(comps) != 1:
+        raise AnalysisError("_shard is not in the slice/comprehension form the tiling rule reads "
+                            f"({len(slices)} slices, {len(comps)} comprehensions)")
+    comp = comps[0]
+    tok = [s for s in slices if any(s is x for x in ast.walk(comp))][0]
+    rem = [s for s in slices if s is not tok][0]
+    gen = comp.generators[0]
+    ivar = gen.target.id if isinstance(gen.target, ast.Name) else None
+    W, D = {("self.width",): 1}, {("self.depth",): 1}
+    rb.inst(f"token slice `{norm(tok)}` over `{norm(gen.iter)}`")
+    rb.inst(f"remainder slice `{norm(rem)}`")
+    rb.ob(5)
+    lo = _poly(tok.slice.lower, None) if tok.slice.lower is not None else {}
+    hi = _poly(tok.slice.upper, None) if tok.slice.upper is not None else None
+    want_lo = {tuple(sorted((ivar, "self.width"))): 1}
+    want_hi = {tuple(sorted((ivar, "self.width"))): 1, ("self.width",): 1}
+    if lo != want_lo or hi != want_hi or tok.slice.step is not None:
+        rb.fail(sh, tok, f"token {ivar} is cut as `{norm(tok)}`; the layout needs [{ivar}*width : ({ivar}+1)*width]", A.p.loc(sh, tok))
+    if not (isinstance(gen.iter, ast.Call) and norm(gen.iter.func) == "range" and len(gen.iter.args) == 1
+            and _poly(gen.iter.args[0], None) == D) or gen.ifs:
+        rb.fail(sh, gen.iter, f"tokens range over `{norm(gen.iter)}`; the layout needs range(depth)", A.p.loc(sh, gen.iter))
+    rlo = _poly(rem.slice.lower, None) if rem.slice.lower is not None else {}
+    if rlo != {("self.depth", "self.width"): 1} or rem.slice.upper is not None or rem.slice.step is not None:
+        rb.fail(sh, rem, f"remainder is cut as `{norm(rem)}`; the layout needs [depth*width:]", A.p.loc(sh, rem))
+    if norm(tok.value) != norm(rem.value) or norm(tok.value) != sh.node.args.args[1].arg:
+        rb.fail(sh, tok.value, "tokens and remainder are not cut from the digest argument", A.p.loc(sh, tok))
+    # tokens followed by remainder, compacted
+    add = [n for n in ast.walk(sh.node) if isinstance(n, ast.BinOp) and isinstance(n.op, ast.Add) and any(comp is x for x in ast.walk(n.left))]
+    if not add or not any(rem is x for x in ast.walk(add[0].right)):
+        rb.fail(sh, comp, "sharded path is not `tokens + [remainder]` in that order", A.p.loc(sh, comp))
+    rules.append(rb)
+
+    rc = Rule("C15", "C15.c", "cid lists are written one `id + newline` per line by both writers and pid references "
+              "hold the bare cid; readers compare stripped lines / the whole content for equality", floor=3)
+    for m in ("th",):
+        it = A.api("tag_object", m)
+        for ev in it.events:
+            if ev.kind == "WRITE" and ev.prim == "file.write" and Q("_untag_object") not in ev.ctx and len(ev.paths) > 1:
+                data = ev.paths[1]
+                tcls = {c.cls for c in primary(ev.classes[0])}
+                fn = ev.func.qual
+                if fn == Q("_write_refs_file"):
+                    # which kind? decided by the constant ref_type of the call
+                    kinds = set()
+                    for c in it.calls:
+                        if c["callee"] == fn and c["ctx"] + (fn,) == ev.ctx:
+                            kinds |= {t[1] for t in c.get("argmap", {}).get("ref_type", EMPTY) if tag(t) == "const"}
+                    is_line = all(tag(t) == "cat" and t[1][-1] == C("\n") and len(t[1]) == 2 for t in data)
+                    is_bare = all(tag(t) != "cat" for t in data)
+                    rc.ob()
+                    rc.inst(f"{fn}:{ev.line} writes {showv(data)[:60]}")
+                    if ev.node.args and "\\n" in norm(ev.node.args[0]):
+                        if not is_line:
+                            rc.fail(fn, ev.node, "cid-list temp file line is not `id + '\\n'`", A.p.loc(ev.func, ev.node))
+                    elif not is_bare:
+                        rc.fail(fn, ev.node, "pid reference content is not the bare cid", A.p.loc(ev.func, ev.node))
+                elif fn == Q("_update_refs_file") and "CIDREFS" in tcls:
+                    rc.ob()
+                    rc.inst(f"{fn}:{ev.line} appends {showv(data)[:60]}")
+                    if not all(tag(t) == "cat" and t[1][-1] == C("\n") and len(t[1]) == 2 for t in data):
+                        rc.fail(fn, ev.node, "appended cid-list line is not `id + '\\n'`", A.p.loc(ev.func, ev.node))
+    vr = A.p.func(Q("_verify_hashstore_references"))
+    cmp_ok = any(isinstance(n, ast.Compare) and isinstance(n.ops[0], (ast.Eq, ast.NotEq)) and {norm(n.left), norm(n.comparators[0])} == {"retrieved_cid", "cid"}
+                 for n in ast.walk(vr.node))
+    rc.ob()
+    rc.inst("_verify_hashstore_references: pid reference content compared with == to the cid")
+    if not cmp_ok:
+        rc.fail(vr, "retrieved_cid != cid", "pid reference content is no longer compared for equality with the cid", A.p.loc(vr, vr.node))
+    rules.append(rc)
+
+    rd = Rule("C15", "C15.d", "hashstore.yaml is written with the documented keys and every reader reads keys the "
+              "writer writes", floor=4)
+    DOC = ["store_depth", "store_width", "store_metadata_namespace", "store_algorithm", "store_default_algo_list"]
+    b = A.p.func(Q("_build_hashstore_yaml_string"))
+    dicts = [n for n in ast.walk(b.node) if isinstance(n, ast.Dict) and n.keys]
+    if not dicts:
+        raise AnalysisError("_build_hashstore_yaml_string: configuration dict literal not found")
+    written = [k.value for k in dicts[0].keys if isinstance(k, ast.Constant)]
+    rd.inst(f"writer keys {written}")
+    rd.ob()
+    if sorted(written) != sorted(DOC):
+        rd.fail(b, dicts[0], f"hashstore.yaml keys {sorted(written)} differ from the documented {sorted(DOC)}", A.p.loc(b, dicts[0]))
+    # value wiring: each key maps to the parameter of the same name
+    for k, v in zip(dicts[0].keys, dicts[0].values):
+        if isinstance(k, ast.Constant) and k.value != "store_default_algo_list":
+            rd.ob()
+            if norm(v) != k.value:
+                rd.fail(b, f"{k.value!r}: {norm(v)}", f"configuration key {k.value} is written from `{norm(v)}`", A.p.loc(b, v))
+    readers = [(Q("_set_default_algorithms"), "yaml_data"), (Q("_load_properties"), "yaml_data"),
+               ("HashStoreParser.load_store_properties", "yaml_data"), ("main", "yaml_data")]
+    req = [e.value for e in A.p.class_attr_assigns(CLS)["property_required_keys"].elts]
+    for fq, var in readers:
+        f = A.p.func(fq)
+        keys = set()
+        for n in ast.walk(f.node):
+            if isinstance(n, ast.Subscript) and norm(n.value) == var:
+                if isinstance(n.slice, ast.Constant):
+                    keys.add(n.slice.value)
+                elif fq == Q("_load_properties"):
+                    keys |= {k for k in req if k != "store_path"}
+                else:
+                    for l in ast.walk(f.node):
+                        if isinstance(l, ast.List) and all(isinstance(e, ast.Constant) for e in l.elts):
+                            keys |= {e.value for e in l.elts}
+        rd.inst(f"{fq} reads {sorted(keys)}")
+        rd.ob()
+        miss = sorted(k for k in keys if k not in written)
+        if miss:
+            rd.fail(fq, f"yaml keys {miss}", f"{fq} reads key(s) {miss} that the writer does not write", A.p.loc(f, f.node))
+        if not keys:
+            rd.fail(fq, "yaml keys", f"{fq} no longer reads any configuration key (anchor lost)", A.p.loc(f, f.node))
+    rules.append(rd)
+    return rules
+
+
+# =======================================================================================
+def _raw_ident(t, idents, under_hash=False):
+    """does an identifier parameter occur in the path term outside a hash?"""
+    if t in idents and not under_hash:
+        return True
+    tg = tag(t)
+    if tg in ("H", "hashof"):
+        return False
+    if not isinstance(t, tuple):
+        return False
+    for x in t[1:]:
+        if isinstance(x, tuple):
+            if x and isinstance(x[0], str):
+                if _raw_ident(x, idents, under_hash):
+                    return True
+            else:
+                for y in x:
+                    if isinstance(y, tuple) and _raw_ident(y, idents, under_hash):
+                        return True
+        elif isinstance(x, frozenset):
+            for y in x:
+                if _raw_ident(y, idents, under_hash):
+                    return True
+    return False
+
+
+def whole_line_rule(A, rule):
+    for fq in (Q("_is_string_in_refs_file"), Q("_update_refs_file")):
+        f = A.p.func(fq)
+        idp = f.node.args.args[0 if f.is_static else 1].arg if fq.endswith("_is_string_in_refs_file") else "ref_id"
+        found = 0
+        for n in ast.walk(f.node):
+            if isinstance(n, ast.Compare) and any(isinstance(x, ast.Name) and x.id == idp for x in ast.walk(n)):
+                found += 1
+                rule.ob()
+                rule.inst(f"{fq}: `{norm(n)}`")
+                other = [x for x in [n.left] + n.comparators if not (isinstance(x, ast.Name) and x.id == idp)]
+                ok = len(n.ops) == 1 and isinstance(n.ops[0], (ast.Eq, ast.NotEq)) and len(other) == 1
+                if ok:
+                    o = other[0]
+                    if isinstance(o, ast.Name):
+                        # one-step def-use: value = line.strip()
+                        defs = [a.value for a in ast.walk(f.node) if isinstance(a, ast.Assign) and any(isinstance(t, ast.Name) and t.id == o.id for t in a.targets)]
+                        o = defs[0] if len(defs) == 1 else o
+                    ok = isinstance(o, ast.Call) and isinstance(o.func, ast.Attribute) and o.func.attr in ("strip", "rstrip") and not o.args
+                if not ok:
+                    rule.fail(f, n, "an identifier is matched against a reference-file line by something other than equality "
+                              "with the stripped whole line: a pid that is a prefix/substring of another would alias it", A.p.loc(f, n))
+            if isinstance(n, ast.Call) and isinstance(n.func, ast.Attribute) and n.func.attr in ("startswith", "endswith", "find", "index", "count") \
+                    and any(isinstance(x, ast.Name) and x.id == idp for x in ast.walk(n)):
+                rule.ob()
+                rule.fail(f, n, f"identifier matched with .{n.func.attr}() instead of whole-line equality", A.p.loc(f, n))
+        if found == 0:
+            rule.fail(f, "comparison with the identifier", f"{fq} no longer compares lines with the identifier (anchor lost)", A.p.loc(f, f.node))
+
+
+def check_C18(A: Analysis, tier):
+    rules = []
+    ra = Rule("C18", "C18.a", "pid and format_id reach a path only through the store hash (never raw)", floor=40)
+    idents = {P("pid"), P("format_id")}
+    for it, ev in all_events(A, PUBLIC_API, ALL_MODES):
+        for i, v in enumerate(ev.paths or []):
+            if ev.prim.startswith("file.") and i > 0:
+                continue
+            if ev.kind in ("HASH", "HASHUPDATE", "HASHNEW"):
+                continue
+            ra.ob()
+            for t in v:
+                if tag(t) == "param" and t[1] not in ("pid", "format_id"):
+                    continue
+                if _raw_ident(t, idents):
+                    ra.fail(site_func(ev), site_text(ev), f"identifier reaches the file system un-hashed in {show(t)[:100]}: "
+                            "path separators or '..' in a pid would escape or alias", site_loc(A, ev))
+                else:
+                    ra.inst(f"{ev.func.qual}:{ev.line} {ev.prim}[{i}]", nontrivial=any(x in idents for x in subterms(t)))
+    rules.append(ra)
+
+    rb = Rule("C18", "C18.b", "membership in and removal from a cid list compare the identifier with the stripped "
+              "whole line for equality", floor=2)
+    whole_line_rule(A, rb)
+    rules.append(rb)
+
+    rc = Rule("C18", "C18.c", "every caller-supplied value written as a line of a reference file has passed "
+              "_check_string (no whitespace, hence no line break)", floor=2)
+    for m in ALL_MODES:
+        for e in ("tag_object", "store_object"):
+            it = A.api(e, m)
+            for ev in it.events:
+                if ev.kind == "WRITE" and ev.prim == "file.write" and len(ev.paths) > 1 and \
+                        any(c.cls in ("CIDREFS", "PIDREFS") or (c.cls == "TMP" and c.key == C("refs")) for c in ev.classes[0]):
+                    rc.ob()
+                    rc.inst(f"{ev.func.qual}:{ev.line} writes {showv(ev.paths[1])[:50]}")
+                    for t in ev.paths[1]:
+                        for x in subterms(t):
+                            if tag(x) == "param" and ("argof", Q("_check_string"), "string", x) not in ev.done:
+                                rc.fail(site_func(ev), site_text(ev), f"`{x[1]}` is written into a line-oriented reference file without having "
+                                        "passed _check_string on this path", site_loc(A, ev))
+    rules.append(rc)
+
+    rd = Rule("C18", "C18.d", "every file or directory created, and every rename destination, is a term rooted at the "
+              "store root built from entity constants, shard(H(.)), shard(cid), H(.), temp names and markers", floor=10)
+    for it, ev in all_events(A, PUBLIC_API, ALL_MODES):
+        idx = None
+        if ev.kind in ("CREATE", "MKDIR"):
+            idx = 0
+        elif ev.kind == "RENAME":
+            idx = 1
+        if idx is None or ev.prim.startswith("file."):
+            continue
+        rd.ob()
+        rd.inst(f"{ev.func.qual}:{ev.line} {ev.kind}")
+        for t in ev.paths[idx]:
+            c = classify(t)
+            b = base_class(c)
+            if not is_rooted(t) and not (c.cls in ("BOGUS",)):
+                # fall-back candidates of the look-up helpers are not destinations (C15.a)
+                if any(cc.cls not in ("FALLBACK", "RAWID", "RELATIVE", "BOGUS") for cc in primary(ev.classes[idx])) and b.cls in ("RAWID", "RELATIVE", "FALLBACK"):
+                    continue
+                rd.fail(site_func(ev), site_text(ev), f"{ev.kind} destination {show(t)[:100]} is not rooted at the store root", site_loc(A, ev))
+    rules.append(rd)
+    return rules
